@@ -20,6 +20,7 @@
 #include "tgsw_functions.h"
 #include "numeric_functions.h"
 #include "polynomials_arithmetic.h"
+#include "guard_new.h"
 
 typedef long long ll;
 typedef std::vector<ll> V;
@@ -61,6 +62,7 @@ int main() {
         const char *s = line.c_str(); while (*s == ' ') s++;
         const char *e = s; while (*e && *e != ' ') e++;
         std::string op(s, e - s);
+        if (op == "guard") { vguard::on = atoi(e); printf("1 %ld\n", vguard::served); fflush(stdout); continue; }   // arrays end at an inaccessible page from here on (guard_new.h)
         if (op != "enc") { puts(op.empty() ? "" : "NOOP"); fflush(stdout); continue; }
         V a; char *q = (char *) e;
         for (;;) { while (*q == ' ') q++; if (!*q) break; char *nx; ll x = strtoll(q, &nx, 10); if (nx == q) break; a.push_back(x); q = nx; }
